@@ -361,7 +361,7 @@ impl Interpreter {
                 let b = state.stack.pop_bigint()?;
 
                 let sum = a + b;
-                state.stack.push(sum.to_signed_bytes_le());
+                state.stack.push_bigint(sum)?;
             }
             OpCodes::OP_SUB => {
                 let b = state.stack.pop_bigint()?;
